@@ -1310,6 +1310,10 @@ func (c Clause) ReplaceWildcards() Clause {
 	if !vars[Variable{"_"}] { // If no wildcards
 		return c
 	}
+	// So are the variables of the head's temporal annotation.
+	if c.HeadTime != nil {
+		addVarsFromInterval(*c.HeadTime, vars)
+	}
 	// Variables of the transform are in use as well, a fresh variable must
 	// not clash with them.
 	for t := c.Transform; t != nil; t = t.Next {
